@@ -20,6 +20,7 @@ import ast
 import json
 import multiprocessing as mp
 import os
+import sys
 import random
 import shutil
 import subprocess
@@ -331,6 +332,28 @@ def _run_variant(args):
         shutil.rmtree(tmp, ignore_errors=True)
 
 
+def resolver_crosscheck(root: str) -> dict:
+    import subprocess
+    import tempfile
+    tool = os.path.join(VERIF, 'tools', 'mypy_xcheck.py')
+    try:
+        import importlib.util
+        if importlib.util.find_spec('mypy') is None:
+            return {'status': 'skipped', 'reason': 'mypy is not installed in the interpreter that runs the checks'}
+    except Exception as exc:       # pragma: no cover
+        return {'status': 'skipped', 'reason': repr(exc)}
+    with tempfile.TemporaryDirectory() as d:
+        out = os.path.join(d, 'x.json')
+        r = subprocess.run([sys.executable, tool, '--repo', root, '--json', out], capture_output=True, text=True, timeout=600)
+        lines = [l for l in r.stdout.splitlines() if l.startswith(('DISAGREE', 'UNSEEN-ANCHOR-CALL', 'call sites'))]
+        res = json.load(open(out)) if os.path.exists(out) else {}
+    if r.returncode == 0:
+        return {'status': 'agree', 'summary': lines[-1] if lines else '', 'agree': res.get('agree'), 'mypy_only': res.get('mypy_only'), 'sa_only': res.get('sa_only')}
+    if r.returncode == 1:
+        return {'status': 'disagree', 'lines': lines[:10]}
+    return {'status': 'skipped', 'reason': (r.stderr or r.stdout)[-300:]}
+
+
 def run(pid: str, seed: int, check) -> dict:
     from sa.loader import REPO_ROOT
     root = os.environ.get('AIOSLSK_REPO', REPO_ROOT)
@@ -355,7 +378,12 @@ def run(pid: str, seed: int, check) -> dict:
     with mp.Pool(min(16, max(1, len(jobs)))) as pool:
         results = pool.map(_run_variant, jobs)
     failed = [f'{r[1]} variant "{r[2]}": {r[3]} ({r[4]}; new keys {r[5]})' for r in results if r[3] in ('MISSED', 'FALSE-ALARM', 'invalid')]
+    # cross-check of the call resolution against mypy's typed tree (tools/mypy_xcheck.py; mypy is part of the repository's own environment)
+    xc = resolver_crosscheck(root)
+    if xc.get('status') == 'disagree':
+        failed.append(f'resolver cross-check: {xc.get("lines")}')
     return {
+        'resolver_crosscheck': xc,
         'variants': len(results),
         'break_detected': sum(1 for r in results if r[1] in ('break', 'seed') and r[3] == 'ok'),
         'break_total': sum(1 for r in results if r[1] in ('break', 'seed') and r[3] != 'stale'),
